@@ -520,6 +520,7 @@ def h_bounds(h: H):
         ty = SStr(I.ctx.fresh_str("ftype"))
         cur["field"] = (fid, nm, ty)
         cur["notimpl"] = False
+        cur.pop("kind", None)
         return PDict({"id": fid, "name": nm, "type": ty})
 
     R = h.reg.theory_methods
@@ -528,6 +529,12 @@ def h_bounds(h: H):
     h.reg.theory_attrs[("arrowcolumn", "type")] = lambda I, o: "t"
     R[("colnames", "__contains__")] = lambda I, o, a, k: SBool(has_col(pyops.str_z(I.force(a[0]))))
 
+    MIN_S = z3.Function("arrow.min_as_str", z3.StringSort(), z3.StringSort())
+    MAX_S = z3.Function("arrow.max_as_str", z3.StringSort(), z3.StringSort())
+    MIN_I = z3.Function("arrow.min_as_int", z3.StringSort(), z3.IntSort())
+    MAX_I = z3.Function("arrow.max_as_int", z3.StringSort(), z3.IntSort())
+    typed = {"min": (MIN_S, MIN_I), "max": (MAX_S, MAX_I)}
+
     def mk_agg(fn, none_fn, what):
         def agg(I, a, k):
             col = a[0]
@@ -535,7 +542,15 @@ def h_bounds(h: H):
                 cur["notimpl"] = True
                 raise PyRaise(SExc("ArrowNotImplementedError", origin=f"pc.{what}"))
             nz = pyops.str_z(col.fields["name"])
-            return TheoryObj("arrowscalar", fields={"v": SOpt(none_fn(nz), SOpaque("pyval", fn(nz)))})
+            # as_py() of the aggregate: a Python value of the column's kind - a str, an int, or something else (opaque)
+            kind = cur.setdefault("kind", I.ctx.choose(3, "column-value-kind"))
+            if kind == 0:
+                val = SOpaque("pyval", fn(nz))
+            elif kind == 1:
+                val = SStr(typed[what][0](nz))
+            else:
+                val = SInt(typed[what][1](nz))
+            return TheoryObj("arrowscalar", fields={"v": SOpt(none_fn(nz), val)})
         return agg
     h.reg.modfuncs["pyarrow.compute.min"] = mk_agg(MIN, MIN_NONE, "min")
     h.reg.modfuncs["pyarrow.compute.max"] = mk_agg(MAX, MAX_NONE, "max")
@@ -561,8 +576,21 @@ def h_bounds(h: H):
                 if isinstance(k, SOpt):
                     k = k.val
                 res.append((f"BOUNDS:{tag}:keyed-by-this-field's-id", z3.And(eligible, pyops.bool_z(pyops.py_eq(k, fid.val)))))
-                res.append((f"BOUNDS:{tag}:value-is-{'min' if tag == 'lower' else 'max'}-of-the-column-named-by-this-field",
-                            z3.And(z3.Not(none_fn(nz)), to_z3(v) == fn(nz)) if isinstance(v, SOpaque) else z3.BoolVal(False)))
+                what = "min" if tag == "lower" else "max"
+                # what pruning needs: stored lower bound <= column minimum, stored upper bound >= column maximum (in the order
+                # the comparison kernels use); for values of unknown kind no order is known, so exactly the aggregate
+                if isinstance(v, SOpaque):
+                    same = to_z3(v) == fn(nz)
+                elif isinstance(v, SStr):
+                    m = typed[what][0](nz)
+                    same = (v.z <= m) if what == "min" else (m <= v.z)
+                elif isinstance(v, SInt):
+                    m = typed[what][1](nz)
+                    same = (v.z <= m) if what == "min" else (m <= v.z)
+                else:
+                    same = z3.BoolVal(False)
+                res.append((f"BOUNDS:{tag}:stored-bound-is-{'at-most-the-min' if what == 'min' else 'at-least-the-max'}-of-the-column-named-by-this-field",
+                            z3.And(z3.Not(none_fn(nz)), same)))
             elif not cur["notimpl"]:
                 res.append((f"BOUNDS:{tag}:stored-whenever-defined", z3.Not(z3.And(eligible, z3.Not(none_fn(nz))))))
         return res
